@@ -9,6 +9,7 @@ using nd::Rng;
 struct Supply {
   std::vector<std::string> corpus;
   double corpus_share = 0.3;
+  bool allow_flex = false;
   void init() { corpus = mg::load_corpus(); }
   // returns a compiled model or nullptr (skip); fills desc / blob
   mjModel* get(Rng& r, const mg::GenOpts& o, std::string* desc, bool* from_corpus = nullptr, int max_nq = 300) {
@@ -21,7 +22,7 @@ struct Supply {
       *desc = "corpus:" + p;
       nd::g_blob = "model file: " + p + "\n";
       if (!m) { nd::count("model_skipped_load_failure"); return nullptr; }
-      if (m->nq > max_nq || m->nflex || m->nplugin) { nd::count("model_skipped_size_or_flex"); mj_deleteModel(m); return nullptr; }
+      if (m->nq > max_nq || (m->nflex && !allow_flex) || m->nplugin) { nd::count("model_skipped_size_or_flex"); mj_deleteModel(m); return nullptr; }
       nd::count("models_corpus");
       return m;
     }
